@@ -5,6 +5,7 @@ import (
 	"errors"
 	"fmt"
 	"io"
+	"time"
 	"log/slog"
 	"net/http"
 	"net/http/httptest"
@@ -192,6 +193,8 @@ func (w *webWorld) onHandler(id string, ctx context.Context, sc godi.Scope) erro
 		return errors.New("handler failed")
 	case "handler-panic":
 		panic("handler panic " + id)
+	case "client-gone":
+		clientGone(id, sc)
 	}
 	return nil
 }
@@ -211,6 +214,10 @@ func (w *webWorld) onCtl(id string, ctl *Ctl) error {
 		return errors.New("handler failed")
 	case "handler-panic":
 		panic("handler panic " + id)
+	case "client-gone":
+		if ctl != nil {
+			clientGone(id, ctl.S)
+		}
 	}
 	return nil
 }
@@ -237,10 +244,34 @@ type adapter func(w *webWorld, p godi.Provider, cfg appCfg) func(id string) (sta
 
 func reqID(r *http.Request) string { return r.Header.Get("X-Req") }
 
+// cancels holds the cancel function of each request's context ("client went away").
+var cancels sync.Map
+
 func newReq(id string) *http.Request {
 	r := httptest.NewRequest("GET", "/x", nil)
 	r.Header.Set("X-Req", id)
-	return r.WithContext(context.WithValue(r.Context(), reqKey{}, id))
+	ctx, cancel := context.WithCancel(context.WithValue(r.Context(), reqKey{}, id))
+	cancels.Store(id, cancel)
+	return r.WithContext(ctx)
+}
+
+// clientGone cancels the request's context from inside the handler and waits until the
+// scope's context watcher has closed the scope (bounded), so that the middleware's own
+// deferred Close is the second, idempotent one.
+func clientGone(id string, sc godi.Scope) {
+	if c, ok := cancels.Load(id); ok {
+		c.(context.CancelFunc)()
+	}
+	if sc == nil {
+		return
+	}
+	deadline := time.Now().Add(2 * time.Second)
+	for time.Now().Before(deadline) {
+		if _, err := sc.Get(probeType); errors.Is(err, godi.ErrScopeDisposed) {
+			return
+		}
+		time.Sleep(50 * time.Microsecond)
+	}
 }
 
 var closeErrs atomic.Int64
@@ -653,7 +684,7 @@ func judge(cfg appCfg, pl *plan, l *reqLog, status int, escaped any, providerClo
 var probeType = reflectTypeOfProbe()
 
 func TestC16Web(t *testing.T) {
-	col := evid.New("C16", "requests", "for each of net/http, chi, gin, echo, fiber: generated application configurations (0-3 middlewares, custom/default error and close-error handlers, plain handler or Handle wrapper with/without panic recovery and custom handlers, controller registered or not, Handle mounted with/without the scope middleware, optional initializer) x request sequences and concurrent batches (2-12 requests) x exit path per request (ok, middleware error at position i, handler error, handler panic, scope-creation failure) plus requests after the provider was closed; oracle from callback logs and a scoped disposable probe: one scope per request, identical for every middleware (in order), the handler, the probe's own scope/context and the controller Handle resolves; concurrent requests never share; scope disposed and probe closed exactly once after every exit path; error handler runs and handler does not on middleware error / scope-creation failure; Handle calls the method iff resolution succeeded else exactly one error handler, and swallows panics iff recovery is on; non-trivial = exit path != ok, >=2 middlewares, or a concurrent batch >=4")
+	col := evid.New("C16", "requests", "for each of net/http, chi, gin, echo, fiber: generated application configurations (0-3 middlewares, custom/default error and close-error handlers, plain handler or Handle wrapper with/without panic recovery and custom handlers, controller registered or not, Handle mounted with/without the scope middleware, optional initializer) x request sequences and concurrent batches (2-12 requests) x exit path per request (ok, middleware error at position i, handler error, handler panic, scope-creation failure, client gone: the request context is cancelled while the handler runs, so the scope's context watcher closes the scope before the middleware's own Close) plus requests after the provider was closed; oracle from callback logs and a scoped disposable probe: one scope per request, identical for every middleware (in order), the handler, the probe's own scope/context and the controller Handle resolves; concurrent requests never share; scope disposed and probe closed exactly once after every exit path; error handler runs and handler does not on middleware error / scope-creation failure; Handle calls the method iff resolution succeeded else exactly one error handler, and swallows panics iff recovery is on; non-trivial = exit path != ok, >=2 middlewares, or a concurrent batch >=4")
 	defer col.Flush()
 	names := []string{"http", "chi", "gin", "echo", "fiber"}
 	rapid.Check(t, func(rt *rapid.T) {
@@ -677,13 +708,16 @@ func TestC16Web(t *testing.T) {
 			rt.Fatalf("build failed: %v", err)
 		}
 		serve := adapters[cfg.Framework](w, p, cfg)
-		exits := []string{"ok", "ok", "mw-err", "handler-err", "handler-panic", "scope-fail"}
+		exits := []string{"ok", "ok", "mw-err", "handler-err", "handler-panic", "scope-fail", "client-gone"}
 		nreq := 0
 		mkPlan := func() *plan {
 			nreq++
 			pl := &plan{ID: fmt.Sprintf("q%d", nreq), Exit: rapid.SampledFrom(exits).Draw(rt, "exit")}
 			if pl.Exit == "mw-err" {
 				pl.MwFailAt = rapid.IntRange(0, 3).Draw(rt, "mwFailAt")
+			}
+			if pl.Exit == "client-gone" && cfg.Framework == "fiber" {
+				pl.Exit = "ok" // fiber's user context is not tied to the connection: nothing to cancel
 			}
 			w.plans.Store(pl.ID, pl)
 			return pl
